@@ -223,12 +223,65 @@ def run(rep, tier, seed, pa):
                 if [float(x) for x in e["args"]] != [-1.0, 1.0]:
                     bad.append(("requested-primitive", "shift draws uniform%r instead of uniform(-1, 1)" % (tuple(e["args"]),)))
                     break
+        # parameters handed to the primitives when only false positives run: the category law is the reference's weights, the centre is uniform over
+        # the reference's bounds, the duration is normal with the mean / standard deviation of the reference's durations
+        if on == ["false_pos"]:
+            import math
+            w = ref.category_weights
+            rdur = [e_ - s_ for s_, e_, _ in ref_units]
+            mean = sum(rdur) / len(rdur)
+            std = math.sqrt(sum((x - mean) ** 2 for x in rdur) / len(rdur))
+            for e in log:
+                if e["name"] == "choice" and (e["p"] is None or any(abs(a - b) > 1e-9 for a, b in zip(e["p"], list(w.values()))) or len(e["p"]) != len(w)):
+                    bad.append(("requested-primitive", "false positives draw their category with p=%r, reference weights %r" % (e["p"], list(w.values()))))
+                    break
+                if e["name"] == "uniform" and not (abs(e["args"][0] - ref.bound_inf) < 1e-9 and abs(e["args"][1] - ref.bound_sup) < 1e-9):
+                    bad.append(("requested-primitive", "false positives draw their centre from uniform%r, reference bounds %r" % (tuple(e["args"]), (ref.bound_inf, ref.bound_sup))))
+                    break
+                if e["name"] == "normal" and not (abs(e["args"][0] - mean) < 1e-9 * max(1, mean) and abs(e["args"][1] - std) < 1e-9 * max(1, std)):
+                    bad.append(("requested-primitive", "false positives draw their duration from normal%r, reference durations have mean %r and deviation %r" % (tuple(e["args"]), mean, std)))
+                    break
         nontriv = m > 0 and len(log) > 0
         desc2 = dict(desc, draws=[(e["name"], e.get("index"), None if e["name"] == "choice" else float(e["result"])) for e in log][:80])
         rep.case(sample={"magnitude": m, "flags": on, "annotators": names, "include_ref": include_ref, "primitives": len(log), "agree": not bad},
                  nontrivial_key=repr(desc2) if nontriv else None)
         for key, what in bad:
             rep.violation(key, desc2, what)
+    # category_shuffle called directly with its optional arguments (corpus_shuffle never passes them): segments kept, categories those of the
+    # reference, and the law handed to np.random.choice is a probability vector (one-hot on the unit's own category at magnitude 0)
+    for ci in range(12 if tier == "quick" else 120):
+        k = rng.randrange(3, 7)
+        units = gen.gen_units(rng, 1, [k], "disjoint", gen.LABEL_SETS["abc"])
+        if not units[0]:
+            continue
+        ref = gen.build_continuum(pa, units, names=["Ref"])
+        m = rng.choice([0.0, 0.3, 0.7, 1.0])
+        tool = CST(m, ref)
+        corpus = tool.corpus_from_reference(["x", "y"])
+        before = {a: sorted((u.segment.start, u.segment.end) for u in corpus[a]) for a in corpus.annotators}
+        kw = rng.choice([{"prevalence": True}, {"overlapping_fun": (lambda a, b: 1.0 if a == b else 0.5)},
+                         {"overlapping_fun": (lambda a, b: 1.0 if a == b else 0.25), "prevalence": True}, {}])
+        desc = {"units": units, "magnitude": m, "call": "category_shuffle(%s)" % ", ".join(sorted(kw))}
+        np.random.seed(rng.randrange(2 ** 31))
+        rep.count("direct_category_shuffle")
+        rep.case(sample=desc)
+        try:
+            with Draws() as dr:
+                tool.category_shuffle(corpus, **kw)
+        except Exception as e:
+            rep.violation("category_shuffle-raises", dict(desc, error=repr(e)), "category_shuffle raised %r" % (e,))
+            continue
+        after = {a: sorted((u.segment.start, u.segment.end) for u in corpus[a]) for a in corpus.annotators}
+        if after != before:
+            rep.violation("confinement:cat_shuffle", desc, "category_shuffle(%s) changed the segments" % ", ".join(sorted(kw)))
+        if not set(corpus.categories) <= set(ref.categories):
+            rep.violation("foreign-category", desc, "category_shuffle produced categories %r outside the reference's %r" % (list(corpus.categories), list(ref.categories)))
+        for e in dr.log:
+            if e["name"] == "choice":
+                p = e["p"]
+                if p is None or any(x < -1e-12 for x in p) or abs(sum(p) - 1) > 1e-9 or (m == 0 and sorted(p) != [0.0] * (len(p) - 1) + [1.0]):
+                    rep.violation("category-law", dict(desc, p=p), "category_shuffle draws a category with p=%r (magnitude %r)" % (p, m))
+                    break
     # scripted witnesses of the split fallback: a unit too short to be cut where the draw falls is left as it was
     # (first piece too short / second piece too short after the first was added - the defect repaired by the fix commit)
     for label, cutv in (("second-piece-too-short", 9e-7), ("first-piece-too-short", 5e-5 - 4e-7)):
